@@ -134,6 +134,7 @@ var dtEast = []string{
 	"2023-10-01T00:00:00+10:00", "2023-10-01T00:00:00+11:00", "2023-04-02", "2023-04-02T02:30:00", "2023-04-01T15:30:00Z", "2023-04-01T16:30:00Z", "2023-04-02T00:00:00+11:00", "2023-04-02T00:00:00+10:00",
 	"2023-09-24", "2023-09-23T12:00:00Z", "2023-09-24T00:00:00+12:00", "2023-09-24T00:00:00+13:00", "2023-09-24T02:30:00",
 	"2024-03-10", "2024-03-10T00:00:00.25", "2024-03-10T00:00:00.999999", "2024-03-10T00:00:00", "2024-03-10T00:00:00.000001", "2024-03-09T23:59:59.75", "2024-03-10T00:00:00.25Z", "2024-03-10T05:00:00.5Z",
+	"12:34:56+05:60", "12:34:56+24", "12:34:56+16", "12:34:56+15:59", "12:34:56-15:59", "12:34:56-16:00", "2023-08-15 12:34:56-24:60", "2023-08-15T12:34:56+15:00", "2023-08-15T12:34:56+05:99", "2023-08-15T12:34:56-15",
 	"23:59:59.7+05:00", "23:59:59.4+05:00", "00:00:00+05:00", "23:59:59.7", "23:59:59.9999996", "2024-03-10T23:59:59.7", "2024-03-10T23:59:59.9999996+01:00",
 }
 
